@@ -504,6 +504,11 @@ pub enum Ctor {
 }
 pub const APIS: &[Api] = &[Api::Command, Api::Capability];
 /// URL and header set the streamed-body part runs on
+/// reduced sets of the expectation part
+const EXPECT_METHODS: &[usize] = &[0, 2, 3]; // GET, POST, PUT
+const EXPECT_HEADER_SETS: &[usize] = &[0, 3, 5]; // none, two, multi-valued slice (+ one after the body)
+const EXPECT_QUERIES: &[usize] = &[0, 1];
+const EXPECT_URL: usize = 2;
 const STREAM_URL: usize = 5;
 const STREAM_HEADERS: usize = 3;
 pub const CTORS: &[Ctor] = &[Ctor::Named, Ctor::Request];
@@ -552,6 +557,9 @@ pub struct CaseIx {
     /// streamed-body part: `body` is ignored when this is set
     #[serde(default)]
     pub stream: Option<StreamIx>,
+    /// index into EXPECTATIONS (0 = none)
+    #[serde(default)]
+    pub expect: usize,
 }
 
 // ---------------------------------------------------------------------------------------------
@@ -820,13 +828,52 @@ macro_rules! apply_hops {
     }};
 }
 
-macro_rules! apply_case {
-    ($b:expr, $hs:expr, $body:expr, $query:expr, $ct:expr) => {{
+/// Which response expectation the app states, and WHERE in the builder chain it does so. The
+/// expectation only concerns the response; wherever it is written, the request must reach the
+/// shell as described.
+#[derive(Debug, Clone, Copy, PartialEq, Eq)]
+pub enum Place {
+    /// first call on the builder
+    Start,
+    /// after the header calls, right before the body call
+    BeforeBody,
+    /// right after the body call
+    AfterBody,
+    /// last call before `build()` / `send()`
+    End,
+}
+#[derive(Debug, Clone, Copy, PartialEq, Eq)]
+pub enum Expectation {
+    None,
+    Str(Place),
+    Json(Place),
+}
+pub const EXPECTATIONS: &[Expectation] = &[
+    Expectation::None,
+    Expectation::Str(Place::Start),
+    Expectation::Str(Place::BeforeBody),
+    Expectation::Str(Place::AfterBody),
+    Expectation::Str(Place::End),
+    Expectation::Json(Place::Start),
+    Expectation::Json(Place::BeforeBody),
+    Expectation::Json(Place::AfterBody),
+    Expectation::Json(Place::End),
+];
+
+// header calls (and a content type written before the body)
+macro_rules! stage1 {
+    ($b:expr, $hs:expr, $ct:expr) => {{
         let ct_before: Vec<HOp> = $ct.op().filter(|(after, _)| !*after).map(|(_, o)| o).into_iter().collect();
-        let ct_after: Vec<HOp> = $ct.op().filter(|(after, _)| *after).map(|(_, o)| o).into_iter().collect();
         let b = apply_hops!($b, &$hs.before_body);
-        let b = apply_hops!(b, &ct_before);
-        let b = match $body {
+        apply_hops!(b, &ct_before)
+    }};
+}
+
+// the body call
+macro_rules! stage2 {
+    ($b:expr, $body:expr) => {{
+        let b = $b;
+        match $body {
             BodySpec::None => b,
             BodySpec::Str(s) => b.body_string(s.clone()),
             BodySpec::Bytes(x) => b.body_bytes(x),
@@ -849,13 +896,83 @@ macro_rules! apply_case {
                 ChunkReader { data: data.clone(), pos: 0, delivery: *delivery, yielded_at: None },
                 if *declared_exact { Some(data.len()) } else { None },
             )),
-        };
-        let b = apply_hops!(b, &ct_after);
+        }
+    }};
+}
+
+// what the app writes after the body: content type, further headers, the query struct
+macro_rules! stage3 {
+    ($b:expr, $hs:expr, $ct:expr, $query:expr) => {{
+        let ct_after: Vec<HOp> = $ct.op().filter(|(after, _)| *after).map(|(_, o)| o).into_iter().collect();
+        let b = apply_hops!($b, &ct_after);
         let b = apply_hops!(b, &$hs.after_body);
         match $query {
             QuerySpec::None => b,
             QuerySpec::Flat => b.query(&flat_q()).expect("query"),
             QuerySpec::Escaping => b.query(&esc_q()).expect("query"),
+        }
+    }};
+}
+
+macro_rules! finish {
+    (cmd, $b:expr, $ev:path) => {
+        $b.build().then_send($ev)
+    };
+    (cap, $b:expr, $ev:path) => {
+        $b.send($ev)
+    };
+}
+
+// the whole chain with the expectation call `$($exp)+` written at `$place`
+macro_rules! chain_at {
+    ($api:ident, $b:expr, $hs:expr, $body:expr, $query:expr, $ct:expr, $place:expr, $ev:path, $($exp:tt)+) => {
+        match $place {
+            Place::Start => {
+                let b = $b$($exp)+;
+                let b = stage1!(b, $hs, $ct);
+                let b = stage2!(b, $body);
+                let b = stage3!(b, $hs, $ct, $query);
+                finish!($api, b, $ev)
+            }
+            Place::BeforeBody => {
+                let b = stage1!($b, $hs, $ct);
+                let b = b$($exp)+;
+                let b = stage2!(b, $body);
+                let b = stage3!(b, $hs, $ct, $query);
+                finish!($api, b, $ev)
+            }
+            Place::AfterBody => {
+                let b = stage1!($b, $hs, $ct);
+                let b = stage2!(b, $body);
+                let b = b$($exp)+;
+                let b = stage3!(b, $hs, $ct, $query);
+                finish!($api, b, $ev)
+            }
+            Place::End => {
+                let b = stage1!($b, $hs, $ct);
+                let b = stage2!(b, $body);
+                let b = stage3!(b, $hs, $ct, $query);
+                let b = b$($exp)+;
+                finish!($api, b, $ev)
+            }
+        }
+    };
+}
+
+macro_rules! chain {
+    ($api:ident, $b:expr, $hs:expr, $body:expr, $query:expr, $ct:expr, $expectation:expr) => {{
+        let b = $b;
+        match $expectation {
+            Expectation::None => {
+                let b = stage1!(b, $hs, $ct);
+                let b = stage2!(b, $body);
+                let b = stage3!(b, $hs, $ct, $query);
+                finish!($api, b, Event::Bytes)
+            }
+            Expectation::Str(place) => chain_at!($api, b, $hs, $body, $query, $ct, place, Event::Str, .expect_string()),
+            Expectation::Json(place) => {
+                chain_at!($api, b, $hs, $body, $query, $ct, place, Event::Json, .expect_json::<crate::app::Payload>())
+            }
         }
     }};
 }
@@ -883,8 +1000,7 @@ fn start(ix: CaseIx, al: &Arc<Alphabets>) -> (Host, crate::app::Step) {
                     _ => unreachable!(),
                 },
             };
-            let b = apply_case!(b, hs, body, query, CT_PLACEMENTS[ix.ct]);
-            let cmd = b.build().then_send(Event::Bytes);
+            let cmd = chain!(cmd, b, hs, body, query, CT_PLACEMENTS[ix.ct], EXPECTATIONS[ix.expect]);
             Host::start_cmd(cmd)
         }
         Api::Capability => {
@@ -908,8 +1024,7 @@ fn start(ix: CaseIx, al: &Arc<Alphabets>) -> (Host, crate::app::Step) {
                         _ => unreachable!(),
                     },
                 };
-                let b = apply_case!(b, hs, body, query, CT_PLACEMENTS[ix.ct]);
-                b.send(Event::Bytes);
+                chain!(cap, b, hs, body, query, CT_PLACEMENTS[ix.ct], EXPECTATIONS[ix.expect]);
                 crux_core::Command::done()
             });
             Host::start_caps(program)
@@ -1064,13 +1179,14 @@ pub fn describe_case(ix: CaseIx, al: &Alphabets) -> Value {
         "body": body_name(ix, al),
         "query": format!("{:?}", QUERIES[ix.query]),
         "content_type": format!("{:?}", CT_PLACEMENTS[ix.ct]),
+        "expectation": format!("{:?}", EXPECTATIONS[ix.expect]),
     })
 }
 
 fn case_size(ix: CaseIx) -> usize {
     // smaller indices = simpler alphabet members; APIs/ctors weigh least
     let stream = ix.stream.map_or(0, |st| 100 + st.content * 16 + st.delivery * 2 + st.declared);
-    (ix.headers + ix.body + ix.query + ix.url + ix.ct + stream) * 8 + ix.method * 2 + ix.api + ix.ctor
+    (ix.headers + ix.body + ix.query + ix.url + ix.ct + stream + ix.expect) * 8 + ix.method * 2 + ix.api + ix.ctor
 }
 
 fn self_checks(al: &Arc<Alphabets>) -> Value {
@@ -1093,7 +1209,7 @@ fn self_checks(al: &Arc<Alphabets>) -> Value {
     // canary: `compare` must accept a faithful rendering of the description and reject it for
     // every wrong description. The observation is synthetic, so the canary judges the
     // comparison, not crux.
-    let ix = CaseIx { api: 0, ctor: 0, method: 2, url: 5, headers: 5, body: 2, query: 0, ct: 0, stream: None };
+    let ix = CaseIx { api: 0, ctor: 0, method: 2, url: 5, headers: 5, body: 2, query: 0, ct: 0, stream: None, expect: 0 };
     let body_spec = &body_spec_of(ix, al);
     let exp = expected_for(ix, al);
     let mut headers: Vec<crux_http::protocol::HttpHeader> = exp
@@ -1251,7 +1367,7 @@ pub fn run(tier: Tier) -> i32 {
         for headers in 0..al.header_sets.len() {
             for body in 0..al.bodies.len() {
                 for (query, ct) in (0..QUERIES.len()).flat_map(|q| (0..CT_PLACEMENTS.len()).map(move |c| (q, c))) {
-                    let ix = CaseIx { api, ctor, method, url, headers, body, query, ct, stream: None };
+                    let ix = CaseIx { api, ctor, method, url, headers, body, query, ct, stream: None, expect: 0 };
                     account(&mut agg, ix, headers != 0 || body != 0 || query != 0 || ct != 0);
                 }
             }
@@ -1286,6 +1402,7 @@ pub fn run(tier: Tier) -> i32 {
                         query: 0,
                         ct,
                         stream: Some(StreamIx { content, declared, delivery }),
+                        expect: 0,
                     };
                     account(&mut agg, ix, true);
                 }
@@ -1293,6 +1410,34 @@ pub fn run(tier: Tier) -> i32 {
         }
         agg
     });
+    // expectation part: every non-empty expectation x its place in the chain, over a reduced
+    // method / header-set / query set (the expectation-free chain is the main product)
+    let mut expect_chunks = vec![];
+    for api in 0..APIS.len() {
+        for ctor in 0..CTORS.len() {
+            for &method in EXPECT_METHODS {
+                for body in 0..al.bodies.len() {
+                    expect_chunks.push((api, ctor, method, body));
+                }
+            }
+        }
+    }
+    let expect_parts = par_map(&expect_chunks, |_, &(api, ctor, method, body)| {
+        let mut agg = Agg::new();
+        for &headers in EXPECT_HEADER_SETS {
+            for ct in 0..CT_PLACEMENTS.len() {
+                for &query in EXPECT_QUERIES {
+                    for expect in 1..EXPECTATIONS.len() {
+                        let ix = CaseIx { api, ctor, method, url: EXPECT_URL, headers, body, query, ct, stream: None, expect };
+                        account(&mut agg, ix, true);
+                    }
+                }
+            }
+        }
+        agg
+    });
+    let expect_cases: u64 = expect_parts.iter().map(|a| a.evaluations).sum();
+    parts.extend(expect_parts);
     let stream_cases: u64 = stream_parts.iter().map(|a| a.evaluations).sum();
     let wall_stream = reporter.elapsed() - wall_main;
     parts.extend(stream_parts);
@@ -1307,7 +1452,8 @@ pub fn run(tier: Tier) -> i32 {
     }
     let occurrences = total.report(&reporter);
     let stream_product = stream_chunks.len() * DECLARED.len() * DELIVERIES.len() * CT_PLACEMENTS.len();
-    let product = chunks.len() * al.header_sets.len() * al.bodies.len() * QUERIES.len() * CT_PLACEMENTS.len() + stream_product;
+    let expect_product = expect_chunks.len() * EXPECT_HEADER_SETS.len() * CT_PLACEMENTS.len() * EXPECT_QUERIES.len() * (EXPECTATIONS.len() - 1);
+    let product = chunks.len() * al.header_sets.len() * al.bodies.len() * QUERIES.len() * CT_PLACEMENTS.len() + stream_product + expect_product;
     util::require_nonvacuous("C14", total.nontrivial, total.distinct_obs.len());
     let coverage = json!({
         "states": total.evaluations,
@@ -1315,10 +1461,11 @@ pub fn run(tier: Tier) -> i32 {
         "traces_validated_against_impl": total.validated,
         "evaluations": total.evaluations,
         "distinct_nontrivial": total.nontrivial,
-        "rule": "bounded-exhaustive cartesian product (model_checking by exhaustive enumeration of a finite input space, no sampling): apis x constructors x methods x urls x header-sets x bodies x content-type placements (none / set before the body call / set after it, through header() and through content_type()) x query-structs, plus the streamed-body part (Body::from_reader over a reader that hands out its data all at once / 1 byte per read / 7 bytes per read / 7 bytes with Pending between chunks, declared length exact or None); each case built through the real builders and run to the emitted effect, the bridge encoding round trip and the answering event; cases are distinct by construction (distinct index tuples over duplicate-free alphabets, checked at start); non-trivial = has at least one header op, a body, a content type of its own or a query struct",
+        "rule": "bounded-exhaustive cartesian product (model_checking by exhaustive enumeration of a finite input space, no sampling): apis x constructors x methods x urls x header-sets x bodies x content-type placements (none / set before the body call / set after it, through header() and through content_type()) x query-structs, plus the expectation part (expect_string()/expect_json::<T>() written first / right before the body call / right after it / last, in both APIs, over all bodies and a reduced method, header-set and query set) and the streamed-body part (Body::from_reader over a reader that hands out its data all at once / 1 byte per read / 7 bytes per read / 7 bytes with Pending between chunks, declared length exact or None); each case built through the real builders and run to the emitted effect, the bridge encoding round trip and the answering event; cases are distinct by construction (distinct index tuples over duplicate-free alphabets, checked at start); non-trivial = has at least one header op, a body, a content type of its own or a query struct",
         "exhaustive": total.evaluations as usize == product,
         "product_size": product,
         "streamed_body_cases": stream_cases,
+        "expectation_cases": expect_cases,
         "wall_s_main_product": wall_main,
         "wall_s_streamed_part": wall_stream,
         "alphabets": {
@@ -1331,6 +1478,15 @@ pub fn run(tier: Tier) -> i32 {
                 BodySpec::Bytes(x) | BodySpec::Reader(x, _) if x.len() > 64 => format!("{n}: {}", util::show_bytes(x)),
                 other => format!("{n}: {other:?}"),
             }).collect::<Vec<_>>(),
+            "expectation_part": {
+                "product": "apis x constructors x methods x bodies x header sets x content-type placements x queries x expectations",
+                "expectations": EXPECTATIONS.iter().map(|e| format!("{e:?}")).collect::<Vec<_>>(),
+                "methods": EXPECT_METHODS.iter().map(|m| METHODS[*m].0).collect::<Vec<_>>(),
+                "header_sets": EXPECT_HEADER_SETS.iter().map(|h| al.header_sets[*h].name).collect::<Vec<_>>(),
+                "queries": EXPECT_QUERIES.iter().map(|q| format!("{:?}", QUERIES[*q])).collect::<Vec<_>>(),
+                "url": URLS[EXPECT_URL].0,
+                "bodies": "all of the body alphabet",
+            },
             "streamed_body_part": {
                 "product": "apis x constructors x methods x contents x declared length x delivery x content-type placements",
                 "url": URLS[STREAM_URL].0,
